@@ -359,7 +359,7 @@ def run(chk, facts, tier):
         srcs = set()
         for b_, t_ in f_.calls():
             if t_[1].get("mac") == "Desugaring" and callee(t_).endswith("IntoIterator>::into_iter"):
-                srcs |= {x.split("::")[-1] for x in leaf_producers(f_, t_[2][0]) if x.startswith("call:")}
+                srcs |= {x.split("::")[-1] for x in leaf_producers(f_, t_[2][0], extra_transparent=("::collect", "::collect_vec", "::iter", "::into_iter", "::rev", "::sorted", "::sorted_by_key", "::peekable")) if x.startswith("call:")}
         chk.ob("C01.PIPE", "all-policies", not drops and srcs == {"policies"},
                "the authorizer's loop runs over PolicySet::policies() itself (loop sources: %s) with no dropping adaptor (%s)" % (sorted(srcs), [d for d, _ in drops] or "none"),
                where=f_.where(drops[0][1] if drops else None), fn=f_.name, key="C01.PIPE:all-policies:%s" % ",".join(sorted({d for d, _ in drops})), sample={"sources": sorted(srcs)})
